@@ -33,7 +33,8 @@ def detected(d):
             cur = m.group(1)
             res[cur] = int(m.group(2))
         elif cur and line.startswith('  role=') and cur not in first:
-            first[cur] = line.strip()[7:].split(':', 1)[0] + ':' + line.strip()[7:].split(':', 2)[1] if ':' in line else line.strip()
+            t = line.strip()[len('role='):]
+            first[cur] = ':'.join(t.split(':')[:2]).strip()
     return res, first
 
 
